@@ -11,46 +11,60 @@
                                               exactly those chunks returned
      RConcat  graph tools -> invokable lambda, Stream: the list the lambda received
    plus, per run, the completion order of the tools ([pi], fed to the model as its schedule)
-   and the multiset of tool executions (name, args, call id seen by the tool in its ctx).
+   and the multiset of tool executions (name, args, call id seen by the tool in its ctx, tool
+   options the tool was handed).
+
+   Call options: an optional WithToolList (replaces the configured tool set for the call) and
+   the tags carried by the WithToolOption values (a tool that looks at its options prefixes
+   its output with their concatenation, in the order given).
 
    Error classes: tool errors by their code (>= 100), recovered panic = 4, everything else
    the node reports (unknown tool, bad role, no call, empty stream) = one class 0. *)
 From Eino Require Import Base.Util Model.Tools.
 Local Open Scope string_scope.
 
-Record behav : Type := mkB { b_chunks : list string; b_fail : N; b_failat : option nat; b_panic : bool }.
+(* b_bare: the output is the chunks as they are (no "<tag><name>:" prefix), so that a tool can
+   answer the empty string *)
+Record behav : Type := mkB { b_chunks : list string; b_fail : N; b_failat : option nat; b_panic : bool; b_bare : bool }.
 Inductive hcfg : Type := HNone | HOk | HErr (e : N).
 
 Definition prefix_first (name : string) (cs : list string) : list string :=
   match cs with [] => [] | c :: r => (name ++ ":" ++ c) :: r end.
 
-Definition tbl_inv (tbl : list (string * behav)) (name args : string) : tres :=
+(* the chunks a tool named [name] that was handed the option tag [tag] emits for behaviour [b] *)
+Definition out_chunks (b : behav) (tag name : string) : list string :=
+  if b_bare b then b_chunks b else prefix_first (tag ++ name) (b_chunks b).
+
+(* [sees name] = the option tag the tool of that name acts on ("" for a tool that ignores its options) *)
+Definition tbl_inv (tbl : list (string * behav)) (sees : string -> string) (name args : string) : tres :=
   match alist_get args tbl with
   | None => TErr 7
   | Some b =>
       if b_panic b then TPanic
-      else if N.eqb (b_fail b) 0 then TOk (name ++ ":" ++ concat_strings (b_chunks b))
+      else if N.eqb (b_fail b) 0 then
+             TOk (if b_bare b then concat_strings (b_chunks b)
+                  else sees name ++ name ++ ":" ++ concat_strings (b_chunks b))
            else TErr (b_fail b)
   end.
 
-Definition tbl_str (tbl : list (string * behav)) (name args : string) : sres :=
+Definition tbl_str (tbl : list (string * behav)) (sees : string -> string) (name args : string) : sres :=
   match alist_get args tbl with
   | None => SErr 7
   | Some b =>
       if b_panic b then SPanic
-      else if N.eqb (b_fail b) 0 then SOk (prefix_first name (b_chunks b)) None
+      else if N.eqb (b_fail b) 0 then SOk (out_chunks b (sees name) name) None
            else match b_failat b with
                 | None => SErr (b_fail b)
-                | Some k => SOk (prefix_first name (firstn k (b_chunks b))) (Some (b_fail b))
+                | Some k => SOk (firstn k (out_chunks b (sees name) name)) (Some (b_fail b))
                 end
   end.
 
 (* convTools: indexes[name] = idx, a later tool of the same name overwrites an earlier one *)
-Fixpoint kind_lookup (tools : list (string * tkind)) (name : string) : option tkind :=
+Fixpoint tool_lookup {A} (tools : list (string * A)) (name : string) : option A :=
   match tools with
   | [] => None
   | (n, k) :: r =>
-      match kind_lookup r name with
+      match tool_lookup r name with
       | Some k' => Some k'
       | None => if String.eqb n name then Some k else None
       end
@@ -67,8 +81,8 @@ Definition handler_of (h : hcfg) : option (string -> string -> tres) :=
    several times faster than with nested pairs *)
 Inductive omsg : Type := M (content id : string) | NoMsg.          (* a tool message / a nil entry *)
 Inductive ochunk : Type := Ch (pos : nat) (content id : string).     (* a sparse chunk: position set, message *)
-Inductive xcall : Type := X (name args id : string).                (* one tool execution; id as seen in its ctx *)
-Inductive tdef : Type := T (name : string) (k : tkind).
+Inductive xcall : Type := X (name args id tag : string).            (* one tool execution; id as seen in its ctx; option tag it was handed *)
+Inductive tdef : Type := T (name : string) (k : tkind) (sees : bool). (* sees: the tool looks at its options *)
 Inductive brow : Type := B (args : string) (b : behav).
 
 Inductive host : Type := HStandalone | HGraph.
@@ -85,6 +99,8 @@ Inductive run : Type :=
 
 Record ccase : Type := mkCase {
   k_tdefs : list tdef;
+  k_call_tdefs : option (list tdef);      (* WithToolList *)
+  k_topts : list string;                  (* the tags of the WithToolOption values, in order *)
   k_rows : list brow;
   k_handler : hcfg;
   k_role_ok : bool;
@@ -113,10 +129,19 @@ Definition omsg_eqb (a b : omsg) : bool :=
   | _, _ => false
   end.
 Definition xcall_eqb (a b : xcall) : bool :=
-  match a, b with X n a i, X n' a' i' => String.eqb n n' && String.eqb a a' && String.eqb i i' end.
+  match a, b with X n a i t, X n' a' i' t' => String.eqb n n' && String.eqb a a' && String.eqb i i' && String.eqb t t' end.
 Definition omsg_of (m : tmsg) : omsg := M (fst m) (snd m).
 Definition omsg_of_opt (m : option tmsg) : omsg := match m with Some m => omsg_of m | None => NoMsg end.
-Definition k_tools (c : ccase) : list (string * tkind) := map (fun t => match t with T n k => (n, k) end) (k_tdefs c).
+Definition tools_of (l : list tdef) : list (string * (tkind * bool)) := map (fun t => match t with T n k s => (n, (k, s)) end) l.
+(* the option value handed to the tools: the concatenated tags *)
+Definition k_tag (c : ccase) : string := concat_strings (k_topts c).
+(* convTools of a tool list as the model's tool set; the tools are functions of the tag they are handed *)
+Definition toolset_of (tbl : list (string * behav)) (l : list tdef) : toolset string :=
+  let tl := tools_of l in
+  let sees := fun (tag name : string) => match tool_lookup tl name with Some (_, true) => tag | _ => "" end in
+  mkTS (fun name => option_map fst (tool_lookup tl name))
+       (fun tag => tbl_inv tbl (sees tag))
+       (fun tag => tbl_str tbl (sees tag)).
 Definition k_tbl (c : ccase) : list (string * behav) := map (fun r => match r with B a b => (a, b) end) (k_rows c).
 
 Fixpoint remove_one {A} (eqb : A -> A -> bool) (x : A) (l : list A) : option (list A) :=
@@ -133,23 +158,36 @@ Fixpoint multiset_eqb {A} (eqb : A -> A -> bool) (a b : list A) : bool :=
 (* ---- per-run comparison -------------------------------------------------------------- *)
 Section Case.
   Variable c : ccase.
-  Let kind_of := kind_lookup (k_tools c).
-  Let inv := tbl_inv (k_tbl c).
-  Let str := tbl_str (k_tbl c).
+  Let cfg := toolset_of (k_tbl c) (k_tdefs c).
   Let hd := handler_of (k_handler c).
+  Let co := mkCO (option_map (toolset_of (k_tbl c)) (k_call_tdefs c)) (k_tag c).
+  Let m_invoke := tools_invoke_with cfg hd co.
+  Let m_stream := tools_stream_open_with cfg hd co.
 
   Definition host_wrap {A} (h : host) (r : res A) : res A :=
     match h with HStandalone => r | HGraph => in_graph r end.
 
+  (* the tag a call's execution sees: the handler takes no options *)
+  Definition seen_tag (name : string) : string :=
+    match tool_lookup (tools_of (match k_call_tdefs c with Some l => l | None => k_tdefs c end)) name with
+    | Some (_, true) => k_tag c
+    | _ => ""
+    end.
+
   Definition exec_ok (ex : list xcall) : bool :=
     multiset_eqb xcall_eqb ex
-      (map (fun cl => X (c_name cl) (c_args cl) (c_id cl)) (tools_executed kind_of hd (k_role_ok c) (k_calls c))).
+      (map (fun cl => X (c_name cl) (c_args cl) (c_id cl) (seen_tag (c_name cl)))
+           (tools_executed_with cfg hd co (k_role_ok c) (k_calls c))).
 
   Definition invoke_ok (h : host) (pi : list nat) (o : iobs) : bool :=
-    match host_wrap h (tools_invoke kind_of inv str hd pi (k_role_ok c) (k_calls c)), o with
+    match host_wrap h (m_invoke pi (k_role_ok c) (k_calls c)), o with
     | Ok ms, IMsgs ms' => list_eqb omsg_eqb (map omsg_of ms) ms'
     | Err e, IErr e' => N.eqb (ecls e) e'
     | Panic, IPanic => true
+    (* standalone only (in_graph never yields Panic): whether the panic of the inline task
+       escapes to the caller or is reported as the panic error is not constrained by the
+       property (there is no enclosing run); both are accepted *)
+    | Panic, IErr e' => N.eqb e' 4
     | _, _ => false
     end.
 
@@ -182,16 +220,17 @@ Section Case.
        end.
 
   Definition stream_ok (h : host) (pi : list nat) (o : sobs) : bool :=
-    match host_wrap h (tools_stream_open kind_of inv str hd pi (k_role_ok c) (k_calls c)), o with
+    match host_wrap h (m_stream pi (k_role_ok c) (k_calls c)), o with
     | Ok ss, SChunks em fin cc => chunks_ok ss em fin cc
     | Err e, SCallErr e' => N.eqb (ecls e) e'
     | Panic, SCallPanic => true
+    | Panic, SCallErr e' => N.eqb e' 4     (* as in invoke_ok *)
     | _, _ => false
     end.
 
   (* tools -> invokable lambda, Stream: the framework concatenates the merged stream before the lambda *)
   Definition concat_ok (pi : list nat) (o : cobs) : bool :=
-    match in_graph (tools_stream_open kind_of inv str hd pi (k_role_ok c) (k_calls c)), o with
+    match in_graph (m_stream pi (k_role_ok c) (k_calls c)), o with
     | Ok ss, _ =>
         let srcs := stream_srcs ss in
         if forallb (fun s => match snd s with None => true | Some _ => false end) srcs then
